@@ -8,6 +8,9 @@ NOTE = ("Trusted: TLC, Json/IOUtils modules, the harness's lexers / slice compar
 T = {
 "C03": ("TLC shows (small scope, all sequences of <=4-5 writes) that any writer conforming to the per-call Abs guards emits the terminator at most once, is finished iff it was emitted, and nothing after the end; that the implementation-shaped chunk writer refines Abs (and that the three pinned defects do not); every chunked write the driver makes on the real code (buffers 0..40, buffers leaving 0..12 bytes after a chunk, +-12 around 10248k, repeated/interleaved finishing writes, random sequences; Flow and Call API) is validated against the same guards.", "DESIGN.md 3.2, 6 (C03)"),
 "C04": ("TLC shows on N<=6, all interleavings of write/direct-write/empty calls, that the Abs guards imply accounted+left=N, never beyond N, finished iff N accounted and end signalled; every sized write / direct write on the real code (N in 0..300 + boundaries quick, 0..=70000 thorough, u64 extremes via 24-bit limbs, overshoots with every buffer class) is validated as exact min-of-three with side-effect-free refusals.", "DESIGN.md 3.2, 6 (C04)"),
+"C05": ("TLC checks every prefix of every small head layout (0..3 fields, Location at any position, statuses 200/302/304, limits 0/1/4) against the Abs offer guard for the code-shaped parse pipeline: it holds with the known deviation PartialRedirect listed, is refuted without it (KF1) and with the repaired short-prefix defect re-enabled; on the real code every prefix 0..|H|+3 of generated well-formed heads (0..130 fields, OWS, empty and obs-text values, repeated names, long reasons, every 3xx) is offered to fresh Flow / Call receivers and validated: need-more-data with 0 consumed, exact head on completion, >128 fields rejected. Events matching the listed deviation are reported as KNOWN-FINDING KF1, any other early response is a violation.", "DESIGN.md 3.2 HeadPrefix, 6 (C05), 7.2"),
+"C06": ("The decision table of RFC 9112 6.3 as restated by the property is a TLA+ operator; TLC sweeps it (totality, ambiguity only where the text is silent, the code-shaped ImplMode admissible in every cell, five mutation toggles refuted); every cell methods x statuses (60 representative quick / all 900 thorough) x versions x 5 Content-Length kinds x 5 Transfer-Encoding kinds is fed to the real code (Flow and single-call API) and the answer (error / successor state / body mode and length) validated against the table by TLC.", "DESIGN.md 3.1 RespRules, 6 (C06)"),
+"C20": ("Same Abs offer guard as C05 applied to the three public parsers with limits 0/1/4/128: request and response heads with 0..N+2 fields at every prefix length; complete parsers must answer incomplete / exact head + length / too-many-headers exactly by the limit, the partial parser never fails within the limit and reports only fields completely present; validated by TLC on every call.", "DESIGN.md 3.2 HeadPrefix, 6 (C20)"),
 "C07": ("TLC model-checks the transcribed six-state dechunker + read loop against the Abs guard over a small-scope grammar of valid codings x every arrival schedule x output sizes x boundary stop (on/off/toggled): refinement, no error on valid input, no over-read, ended-iff, all payload; an edge cover of that model (one script per model transition) is replayed on the real decoder, plus exhaustive cut sets of tiny codings, single/double cuts, 1-byte arrivals, hex-digit boundary sizes and random codings; every read is validated against the Abs guard (totals, content, over-read, ended, one chunk per read, progress).", "DESIGN.md 3.2, 6 (C07)"),
 "C08": ("TLC shows for N<=8 with trailing next-message bytes that the Abs guards imply never-beyond-N, verbatim delivery and complete-iff-N (and always-ready for close-delimited); every read on the real code (N 0..300 + boundaries quick / 0..=70000 thorough, windows and buffers 0,1,2,N-1,N,N+1,N+7,64K, u64 extremes, a body > 4 GiB actually streamed, close-delimited bodies with the verdict read in Cleanup) is validated as exact min-of-three with the next response left unconsumed.", "DESIGN.md 3.2, 6 (C08)"),
 "C18": ("TLC sweeps the formula against the chunk-writer model for every n (small radix exhaustively; real constants n<=1200 quick, <=30808 thorough); the real calculate_max_input and the write it bounds are exercised for every n in scope and validated: M<=n, monotone, sized => n, fully consumed.", "DESIGN.md 3.2, 6 (C18)"),
